@@ -20,7 +20,7 @@ CHECKS = {
                           "recorded executions of the real library validated by TLC against the same actions (StoreTrace.tla)"),
     "C04": dict(cat="model_checking", ref="DESIGN.md 5/C04",
                 text="One exhaustive TLC run per fk wiring (fk index nullable/non-nullable/cascade, fk constraint restrict/cascade): back-reference sets exact, "
-                     "targets exist, delete restricts or cascades exactly; generated behaviours replayed with plain and with hostile ids (quotes, backslashes, keywords).",
+                     "targets exist, delete restricts or cascades exactly (a cascading reference into the same store included: chains, self references, cycles); generated behaviours replayed with plain and with hostile ids (quotes, backslashes, keywords).",
                 technique="TLA+ model checked with TLC per wiring + replay of generated behaviours with a hostile id table + recorded executions validated by TLC (StoreTrace.tla)"),
     "C05": dict(cat="model_checking", ref="DESIGN.md 5/C05",
                 text="Both sides of each link set and ref-count are separate model variables written by paired steps; TLC checks symmetry over all histories and, in "
@@ -72,11 +72,12 @@ CHECKS.update({
 })
 
 CHECKS.update({
-    "C11": dict(cat="exploration", ref="DESIGN.md 5/C11", note="Trusted base: TLC evaluating Literal.tla; the 13-character alphabet table of the harness. Bounded: literal bodies up to 4 (quick) / 6 (thorough) code units.",
+    "C11": dict(cat="exploration", ref="DESIGN.md 5/C11", note="Trusted base: TLC evaluating Literal.tla; the 14-character alphabet table of the harness; Query.tla and the renderer for the store-backed part. Bounded: literal bodies up to 4 (quick) / 6 (thorough) code units; a fixed pool of literals against the bbolt-backed stores.",
                 text="Escape/Unescape are explicit TLA+ operators; TLC proves the round trip for every string within the bound and enumerates every valid literal body with "
-                     "its denotation; the decoder and the whole parse/evaluate pipeline must agree for every body, in every operand position. A pure function: "
+                     "its denotation; the decoder and the whole parse/evaluate pipeline must agree for every body, in every operand position; string literals as operands of "
+                     "symbols backed by the real stores (own field, id, fields reached through a foreign key, map values, set elements) are judged by Query.tla. A pure function: "
                      "exploration level, exhaustive within the bound.",
-                technique="TLA+ specification of the literal syntax; TLC-enumerated literal bodies replayed through ParseZqlString and ast.Parse/EvalBool"),
+                technique="TLA+ specification of the literal syntax; TLC-enumerated literal bodies replayed through ParseZqlString and ast.Parse/EvalBool; TLC-evaluated query cases (Query.tla) with literal operands replayed on the bbolt-backed stores"),
 })
 
 CHECKS.update({
